@@ -106,6 +106,11 @@ def run_batch(cases):
             par = type(name + 'P', (BaseEvent[str if T is not str else int],), dict(ns))
             par()
             ev = type(name, (par,), fld)()
+        elif decl == 'sub_first':
+            # a grouping base class that is never instantiated itself (and a second level below it)
+            par = type(name + 'P', (BaseEvent[T],), dict(ns))
+            mid = type(name + 'M', (par,), dict(ns)) if ci % 2 else par
+            ev = type(name, (mid,), ns)()
         else:
             par = type(name + 'P', (BaseEvent[T],), dict(ns))
             par()
@@ -261,7 +266,7 @@ def gen_case(rng):
             results.append((hname, 'r', vk))
     return {'type': ty, 'results': results, 'incl': rng.choice(['default', 'default', 'all', 'ints', 'completed']),
             'ra': rng.random() < 0.5, 'rn': rng.random() < 0.5, 'rc': rng.random() < 0.5,
-            'decl': rng.choice(['inst', 'inst', 'generic', 'field', 'sub_field', 'sub_inherit']),
+            'decl': rng.choice(['inst', 'inst', 'generic', 'field', 'sub_field', 'sub_inherit', 'sub_first']),
             'order': rng.sample(range(n), n) if rng.random() < 0.5 else []}
 
 
@@ -364,7 +369,7 @@ def decide(prop, tier, seed, gate, my_thms, known, t0, replay):
     nval = len(cases) - len(violations) - len(diverged)
     samples = [{'case': cases[0], 'model_input': rows[0][0], 'real': rows[0][1]}] if cases else []
     evid.write_evidence(prop, tier, seed, my_thms, t0, evaluations=len(cases), distinct_nontrivial=len(distinct),
-                        rule='random (declared type in none/int/str/dict/list[int]/list[str]/dict[str,int]/dict[str,str]/int|None/Optional[str]/Optional[int]/Literal/pydantic model/Any; declared by constructor argument, generic parameter, class field, field overriding an instantiated generic parent, inheritance) x 0-5 handler outcomes '
+                        rule='random (declared type in none/int/str/dict/list[int]/list[str]/dict[str,int]/dict[str,str]/int|None/Optional[str]/Optional[int]/Literal/pydantic model/Any; declared by constructor argument, generic parameter, class field, field overriding an instantiated generic parent, inheritance from an instantiated / never instantiated generic base) x 0-5 handler outcomes '
                              '(20 value kinds incl. coercible, non-conforming, None, events, returned and raised exceptions; shared handler names) x include '
                              'filter (default/all/ints/completed) x raise_if_any x raise_if_none x raise_if_conflicts; all six accessors; '
                              'non-trivial: at least two results; distinct: the case itself',
